@@ -352,7 +352,11 @@ class Gen:
                 t = self.repr_safe_type(1)
             else:
                 t = INT
-            args.append(self.expr(scope, t, depth))
+            if t == INT and self.chance(0.4):
+                # sign and the i32 / bigint representation boundary matter to %d %x %o %X
+                args.append(("int", self.pick([-1, -255, -8, 255, 4096, -7, -2 ** 31, 2 ** 31 - 1, 2 ** 31, -(2 ** 40), 2 ** 64 + 10])))
+            else:
+                args.append(self.expr(scope, t, depth))
         fmt += self.str_text(self.pick([0, 1, 2])).replace("%", "%%")
         if self.chance(0.2):
             fmt += "%%"
